@@ -10,7 +10,7 @@ open IceModel.AgentCore
 /-- the peer-reflexive candidate built for an unknown source -/
 def prflxCand (l : Cand) (src : Nat) (m : Msg) : Cand :=
   { uid := 0, ty := 3, net := l.net, addr := src, comp := l.comp, rel := some 0,
-    prio := match m.prio with | some p => if p == 0 then prflxPriority l.comp else p | none => prflxPriority l.comp }
+    prio := match m.prio with | some p => if p == 0 then prflxPriority l.net l.comp else p | none => prflxPriority l.net l.comp }
 
 def hiDiscover (a : Agent) (l : Cand) (src : Nat) (m : Msg) (rc : Option Cand) : Agent × List Out × Option Cand :=
   match rc with
@@ -246,7 +246,9 @@ theorem Inv.step {a : Agent} (h : Inv a) (e : Ev) : Inv (step a e).1 := by
     | true => simpa using h
     | false =>
       simp only [Bool.false_eq_true, if_false]
-      exact (h.addRemoteCandidate c hc).1.runForced now
+      split
+      · exact h
+      · exact (h.addRemoteCandidate c hc).1.runForced now
   | start now ctl ru rp =>
     simp only [IceModel.AgentCore.step]
     repeat' split
